@@ -54,7 +54,7 @@ def run(ctx):
            what="nothing on the load path reads XrefEntry::Compressed { container, .. }: when several object streams define the same object number the merged cross-reference table's designation is ignored and the first-come copy wins (a stale copy from an older revision can shadow the update)")
     # 3. history prefix
     sv = F.fn("IncrementalDocument::save_internal")
-    writes = [c for c in sv.calls if re.search(r"io::Write::(write_all|write_fmt|write)$", c.fn or "") or (c.local and "Writer::write" in c.name)]
+    writes = [c for c in sv.calls if re.search(r"io::Write::(write_all|write_fmt|write)$", c.fn or "") or (c.local and "Writer::write" in c.cname)]
     pre = [c for c in writes if re.search(r"io::Write::write_all$", c.fn or "") and "inner" in sv.oname(c.args[0], 3)]
     ok = len(pre) == 1 and all(sv.dominates(pre[0].bb, w.bb) for w in writes)
     src = "?"
